@@ -278,12 +278,43 @@ func doHelper(f []string) (out string) {
 		for _, a := range f[1:] {
 			args = append(args, parseVal(a))
 		}
+		// slices are handed over with spare capacity (sentinels beyond their length), maps are copied first:
+		// a helper that writes into its arguments is reported as "mutated"
+		const spare = "\x00verif-spare"
+		type guard struct {
+			full []string
+			n    int
+			want []string
+		}
+		var guards []guard
+		mapsBefore := fmt.Sprint(args...)
+		for i, a := range args {
+			if l, ok := a.([]string); ok && l != nil {
+				full := make([]string, len(l)+3)
+				copy(full, l)
+				for k := len(l); k < len(full); k++ {
+					full[k] = spare
+				}
+				args[i] = full[:len(l):len(full)]
+				guards = append(guards, guard{full, len(l), append([]string{}, l...)})
+			}
+		}
 		var s string
 		var err error
 		if f[0] == "class" {
 			s, err = goht.BuildClassList(args...)
 		} else {
 			s, err = goht.BuildAttributeList(args...)
+		}
+		for _, g := range guards {
+			for k, v := range g.full {
+				if (k < g.n && v != g.want[k]) || (k >= g.n && v != spare) {
+					return "mutated"
+				}
+			}
+		}
+		if fmt.Sprint(args...) != mapsBefore {
+			return "mutated"
 		}
 		if err != nil {
 			return "err"
